@@ -32,8 +32,8 @@
                   MemSet not committed by then.
     known finding 2: ... or panics of a MemSet+Commit / Commit in a prune + memTree
                   run at a block height that is not above all earlier ones.
-    known finding 3: ... or, in direct prune runs, a first deviation at a successful
-                  update with no writes (it returns another root). *)
+    (former known finding 3 — a direct Set with no writes returning another root under
+    prune — is repaired in chain33 7d7bddb: such a deviation is a plain violation.) *)
 From Coq Require Import List ZArith NArith Bool FMapPositive.
 From C33 Require Import Lib.Harness C01.Keys C01.Model C01.Store C02.Model.
 (* the wire types of C01's harness (KV, SL, SN) and its string table are reused *)
@@ -58,8 +58,7 @@ Inductive runobs :=
     32 pruneHeight = 1000000 (else 0), 64 tkCloseCacheLen = 7 (else 0) *)
 Inductive run := RUN (bits : N) (direct : bool) (o : runobs).
 
-(* [ranks]: position of every root class (1, 2, ...) in the byte order of the root hashes *)
-Inductive case := CASE (tab : list bytes) (ranks : list N) (ops : list uop) (runs : list run).
+Inductive case := CASE (tab : list bytes) (ops : list uop) (runs : list run).
 
 Definition cfg_of_bits (b : N) : cfg :=
   new_cfg (mk_cfg (N.testbit b 0) (N.testbit b 1) (N.testbit b 2)
@@ -103,7 +102,7 @@ Definition of_res (st : rstate) (x : res (root * store)) : rstate :=
   | _ => emit st (rs_store st) (code_of x) None []
   end.
 
-Definition run_op (ord : hash -> N) (c : cfg) (direct : bool) (tab : N -> bytes) (st : rstate) (o : uop) : rstate :=
+Definition run_op (c : cfg) (direct : bool) (tab : N -> bytes) (st : rstate) (o : uop) : rstate :=
   if rs_stop st then st else
   let s := rs_store st in
   match o with
@@ -112,12 +111,12 @@ Definition run_op (ord : hash -> N) (c : cfg) (direct : bool) (tab : N -> bytes)
       | None => skip st
       | Some r =>
           let kv := map (fun x => match x with KV k v => (tab k, tab v) end) kvs in
-          if now && direct then of_res st (st_set ord c s r bh kv)
+          if now && direct then of_res st (st_set c s r bh kv)
           else
             match st_memset c s r bh kv with
             | Ok (r1, s1) =>
                 if now then
-                  match st_commit ord c s1 r1 with
+                  match st_commit c s1 r1 with
                   | Ok (r2, s2) => if root_eqb r1 r2 then emit st s2 0%N (Some r2) []
                                    else emit st s2 4%N None []
                   | x => emit st s1 (code_of x) None []
@@ -129,7 +128,7 @@ Definition run_op (ord : hash -> N) (c : cfg) (direct : bool) (tab : N -> bytes)
   | UCommit n =>
       match root_ref (rs_roots st) n with
       | None => skip st
-      | Some r => of_res st (st_commit ord c s r)
+      | Some r => of_res st (st_commit c s r)
       end
   | URollback n =>
       match root_ref (rs_roots st) n with
@@ -172,19 +171,12 @@ Definition obs_eqb (a b : obs) (tabf : N -> bytes) : bool :=
                          (map (fun x => match x with SL k => SLeaf (tabf k) | SN k h s => SNode (tabf k) h s end) s2)
   end.
 
-(** the byte order of a symbolic root: through its class *)
-Definition ord_of (ranks : list N) (seen : list hash) (h : hash) : N :=
-  match index_of h seen 1%N with
-  | Some i => nth (N.to_nat i - 1) ranks 0%N
-  | None => 0%N
-  end.
-
 Definition rs_shapes (tabf : N -> bytes) (sh : list ishape) : list shape_item :=
   map (fun x => match x with SL k => SLeaf (tabf k) | SN k h s => SNode (tabf k) h s end) sh.
 
 (** run the model operation by operation next to one run's observations,
     threading the numbering of roots *)
-Fixpoint agree_ops (c : cfg) (direct : bool) (tabf : N -> bytes) (ranks : list N)
+Fixpoint agree_ops (c : cfg) (direct : bool) (tabf : N -> bytes)
   (st : rstate) (seen : list hash) (ops : list uop) (os : list obs) : bool * list hash :=
   match os with
   | [] => (match ops with [] => true | _ => rs_stop st end, seen)
@@ -193,14 +185,14 @@ Fixpoint agree_ops (c : cfg) (direct : bool) (tabf : N -> bytes) (ranks : list N
       | [] => (false, seen)
       | o :: ops' =>
           if rs_stop st then (false, seen) else
-          let st' := run_op (ord_of ranks seen) c direct tabf st o in
+          let st' := run_op c direct tabf st o in
           match rev (rs_out st') with
           | [] => (false, seen)
           | m :: _ =>
               let '(k, seen') := class_of seen (mo_root m) in
               let ok := (code =? mo_code m)%N && (cls =? k)%N &&
                         list_eqb shape_eqb (rs_shapes tabf sh) (mo_shape m) in
-              let '(b, seen'') := agree_ops c direct tabf ranks st' seen' ops' os' in
+              let '(b, seen'') := agree_ops c direct tabf st' seen' ops' os' in
               (ok && b, seen'')
           end
       end
@@ -219,14 +211,14 @@ Definition ref_obs (runs : list run) : list obs :=
   | _ => []
   end.
 
-Fixpoint agree_runs (tabf : N -> bytes) (ranks : list N) (ops : list uop) (ref : list obs)
+Fixpoint agree_runs (tabf : N -> bytes) (ops : list uop) (ref : list obs)
   (seen : list hash) (runs : list run) : bool :=
   match runs with
   | [] => true
   | RUN bits direct o :: tl =>
-      let '(b, seen') := agree_ops (cfg_of_bits bits) direct tabf ranks
+      let '(b, seen') := agree_ops (cfg_of_bits bits) direct tabf
                                    (mk_rs empty_store [] false []) seen ops (expand ref o) in
-      b && agree_runs tabf ranks ops ref seen' tl
+      b && agree_runs tabf ops ref seen' tl
   end.
 
 (** ---- the specification, on the implementation's outputs ---- *)
@@ -362,47 +354,20 @@ Definition kf2_run (ops : list uop) (ref : list obs) (r : run) : bool :=
   | _ => false
   end.
 
-(** ---- known finding 3: an update with no writes returns another root ----
-    prune, direct Set: the first observation that differs from the first run is a
-    successful update with an empty write list (its root object came from the ARC
-    cache with a hash slice that aliases a LevelDB iterator buffer). *)
-Fixpoint first_diff (tabf : N -> bytes) (a b : list obs) (i : nat) : option nat :=
-  match a, b with
-  | [], [] => None
-  | x :: a', y :: b' => if obs_eqb x y tabf then first_diff tabf a' b' (S i) else Some i
-  | _, _ => Some i
-  end.
-
-Definition kf3_run (tabf : N -> bytes) (ops : list uop) (ref : list obs) (r : run) : bool :=
-  match r with
-  | RUN bits true (RFull l) =>
-      c_prune (cfg_of_bits bits) && (length l =? length ref)%nat &&
-      match first_diff tabf l ref 1 with
-      | Some i => match nth_error ops (i - 1), nth_error l (i - 1) with
-                  | Some (UUpd _ _ [] true), Some (OB 0%N _ []) => true
-                  | _, _ => false
-                  end
-      | None => false
-      end
-  | _ => false
-  end.
-
 Definition check_case (c : case) : verdict :=
   match c with
-  | CASE tab ranks ops runs =>
+  | CASE tab ops runs =>
       let m := build_tab tab 0%N (PositiveMap.empty bytes) in
       let tabf := rs m in
       let ref := ref_obs runs in
       let first_plain := match runs with RUN 0%N true _ :: _ => true | _ => false end in
-      let ma := first_plain && agree_runs tabf ranks ops ref [] runs in
+      let ma := first_plain && agree_runs tabf ops ref [] runs in
       let sref := first_plain && spec_ref tabf ops ref in
       let sp := sref && forallb (run_same tabf ref) runs in
       let k1 := kf1_run tabf ops ref in
       let k2 := fun r => k1 r || kf2_run ops ref r in
-      let k3 := fun r => k2 r || kf3_run tabf ops ref r in
       let kf := if sp || negb sref then 0%N
                 else if forallb k1 runs then 1%N
-                else if forallb k2 runs then 2%N
-                else if forallb k3 runs then 3%N else 0%N in
+                else if forallb k2 runs then 2%N else 0%N in
       (ma, sp, kf)
   end.
